@@ -3,7 +3,10 @@
 //
 // op line:  <unit> <n> <bits> <hex(parameter file)> [<hex(tracker file)>]
 //           unit = lom (LiveOutputManager) | tm (TrackerManager) | tbis (TaskBasedIonizationSimulation)
-//           n    = number of threads (tbis) / unused;  bits = the model's option vector (not used here)
+//                  | urm urr dpm dpr cam car: UniformRandom / DiscPatch / Caproni photon source
+//                    distribution, normal (m) or restart (r) constructor
+//           n    = number of threads (tbis) / source output on (photon source distributions) / unused;
+//           bits = the model's option vector (not used here)
 // answer:   <unit> after=<kinds> owned=<f.f.f> ctor= dtor=<events> end=<kinds>
 //           (same format as lean/Driver/C12.lean; `ctor=` is left empty: frees inside the
 //           constructor cannot be attributed to a field from outside and are compared by count
@@ -165,9 +168,14 @@ void operator delete[](void *p, size_t) noexcept { tracked_delete(p); }
 // ------------------------------------------------------------------ the real classes
 #define private public
 #define protected public
+#include "CaproniPhotonSourceDistribution.hpp"
+#include "DiscPatchPhotonSourceDistribution.hpp"
 #include "LiveOutputManager.hpp"
+#include "RestartReader.hpp"
+#include "RestartWriter.hpp"
 #include "TaskBasedIonizationSimulation.hpp"
 #include "TrackerManager.hpp"
+#include "UniformRandomPhotonSourceDistribution.hpp"
 #undef private
 #undef protected
 #include "c12_gen.hpp"
@@ -177,6 +185,16 @@ static std::string unhex(const std::string &h) {
   for (size_t i = 0; i + 1 < h.size(); i += 2)
     s.push_back((char)std::strtol(h.substr(i, 2).c_str(), nullptr, 16));
   return s;
+}
+
+// leaks that the Lean theorems state per class (argv: --leak-ok=Class::field,...) are reported
+// on stderr, not as ORACLE lines
+static std::vector< std::string > g_leak_ok;
+static bool leak_ok(const std::string &name) {
+  for (const std::string &s : g_leak_ok)
+    if (s == name)
+      return true;
+  return false;
 }
 
 struct FieldObs {
@@ -319,9 +337,14 @@ template < class T > static void run_case(const Case< T > &c, long lineno) {
     for (size_t i = 0; i < fields.size(); ++i) {
       const char k = collapse(fields[i], nullptr);
       end.push_back(k);
-      if (k == 'o' || k == 'm')
-        oracle << "ORACLE line=" << lineno << " leak " << c.cls << "::" << fields[i].name
-               << " still owns its allocation after the destructor\n";
+      if (k == 'o' || k == 'm') {
+        if (leak_ok(std::string(c.cls) + "::" + fields[i].name))
+          std::cerr << "note line=" << lineno << " expected leak " << c.cls << "::" << fields[i].name
+                    << "\n";
+        else
+          oracle << "ORACLE line=" << lineno << " leak " << c.cls << "::" << fields[i].name
+                 << " still owns its allocation after the destructor\n";
+      }
     }
   }
   // blocks allocated by the constructor and alive after the destructor
@@ -362,8 +385,23 @@ template < class T > static void run_case(const Case< T > &c, long lineno) {
     fs.push_back(f);                                                                               \
   }
 
-int main() {
+int main(int argc, char **argv) {
   trk::init();
+  for (int i = 1; i < argc; ++i) {
+    const std::string a = argv[i];
+    if (a.compare(0, 10, "--leak-ok=") == 0) {
+      std::string rest = a.substr(10), cur;
+      for (char ch : rest) {
+        if (ch == ',') {
+          g_leak_ok.push_back(cur);
+          cur.clear();
+        } else
+          cur.push_back(ch);
+      }
+      if (!cur.empty())
+        g_leak_ok.push_back(cur);
+    }
+  }
   char tmpl[] = "/tmp/verif_c12_XXXXXX";
   const std::string dir = mkdtemp(tmpl);
   if (chdir(dir.c_str()) != 0)
@@ -420,6 +458,95 @@ int main() {
         C12_TASKBASEDIONIZATIONSIMULATION_FIELDS(OBS_S, OBS_V)
       };
       run_case(c, lineno);
+    } else if (w[0] == "urm" || w[0] == "urr" || w[0] == "dpm" || w[0] == "dpr" || w[0] == "cam" ||
+               w[0] == "car") {
+      const bool output = std::atoi(w[1].c_str()) != 0;
+      const double yr = 3.154e7;
+      const bool restart = w[0][2] == 'r';
+      // the restart constructors read a dump written by a normally constructed object
+      auto make_ur = [&](void *buf, bool out) {
+        UniformRandomPhotonSourceDistribution *p =
+            buf ? new (buf) UniformRandomPhotonSourceDistribution(
+                      2.e6 * yr, 1.e48, 3, CoordinateVector<>(0.), CoordinateVector<>(1.), 42,
+                      1.e6 * yr, 3.e6 * yr, out)
+                : new UniformRandomPhotonSourceDistribution(2.e6 * yr, 1.e48, 3,
+                                                            CoordinateVector<>(0.),
+                                                            CoordinateVector<>(1.), 42, 1.e6 * yr,
+                                                            3.e6 * yr, out);
+        return p;
+      };
+      auto make_dp = [&](void *buf, bool out) {
+        return buf ? new (buf) DiscPatchPhotonSourceDistribution(2.e6 * yr, 1.e48, 5, -1., 2., -1.,
+                                                                 2., 0., 0.3, 42, 1.e6 * yr,
+                                                                 3.e6 * yr, out)
+                   : new DiscPatchPhotonSourceDistribution(2.e6 * yr, 1.e48, 5, -1., 2., -1., 2.,
+                                                           0., 0.3, 42, 1.e6 * yr, 3.e6 * yr, out);
+      };
+      auto make_ca = [&](void *buf, bool out) {
+        return buf ? new (buf) CaproniPhotonSourceDistribution(
+                         1., 1., 8. * 1.98855e30, 20. * 1.98855e30, 100. * 1.98855e30, -2.3, 42,
+                         1.e6 * yr, 3.e6 * yr, 10., out)
+                   : new CaproniPhotonSourceDistribution(1., 1., 8. * 1.98855e30, 20. * 1.98855e30,
+                                                         100. * 1.98855e30, -2.3, 42, 1.e6 * yr,
+                                                         3.e6 * yr, 10., out);
+      };
+      if (restart) {
+        PhotonSourceDistribution *a = nullptr;
+        if (w[0][0] == 'u')
+          a = make_ur(nullptr, output);
+        else if (w[0][0] == 'd')
+          a = make_dp(nullptr, output);
+        else
+          a = make_ca(nullptr, output);
+        {
+          RestartWriter rw("psd.dump");
+          a->write_restart_file(rw);
+        }
+        delete a;
+      }
+      if (w[0][0] == 'u') {
+        Case< UniformRandomPhotonSourceDistribution > c;
+        c.unit = restart ? "urr" : "urm";
+        c.cls = "UniformRandomPhotonSourceDistribution";
+        c.construct = [&](void *buf) {
+          if (!restart)
+            return make_ur(buf, output);
+          RestartReader rr("psd.dump");
+          return new (buf) UniformRandomPhotonSourceDistribution(rr);
+        };
+        c.observe = [](UniformRandomPhotonSourceDistribution *o, std::vector< FieldObs > &fs) {
+          C12_UNIFORMRANDOMPSD_FIELDS(OBS_S, OBS_V)
+        };
+        run_case(c, lineno);
+      } else if (w[0][0] == 'd') {
+        Case< DiscPatchPhotonSourceDistribution > c;
+        c.unit = restart ? "dpr" : "dpm";
+        c.cls = "DiscPatchPhotonSourceDistribution";
+        c.construct = [&](void *buf) {
+          if (!restart)
+            return make_dp(buf, output);
+          RestartReader rr("psd.dump");
+          return new (buf) DiscPatchPhotonSourceDistribution(rr);
+        };
+        c.observe = [](DiscPatchPhotonSourceDistribution *o, std::vector< FieldObs > &fs) {
+          C12_DISCPATCHPSD_FIELDS(OBS_S, OBS_V)
+        };
+        run_case(c, lineno);
+      } else {
+        Case< CaproniPhotonSourceDistribution > c;
+        c.unit = restart ? "car" : "cam";
+        c.cls = "CaproniPhotonSourceDistribution";
+        c.construct = [&](void *buf) {
+          if (!restart)
+            return make_ca(buf, output);
+          RestartReader rr("psd.dump");
+          return new (buf) CaproniPhotonSourceDistribution(rr);
+        };
+        c.observe = [](CaproniPhotonSourceDistribution *o, std::vector< FieldObs > &fs) {
+          C12_CAPRONIPSD_FIELDS(OBS_S, OBS_V)
+        };
+        run_case(c, lineno);
+      }
     } else {
       std::cout << "bad-unit\n";
     }
